@@ -128,6 +128,7 @@ class VK:
         self.on_event = on_event
         self.max_running = 0
         self.abort_on = None
+        self.wakeup_fd = -1
         for k, b in self.behaviours.items():
             if b.get("sigint_while_running"):
                 self.abort_on = k
@@ -176,6 +177,13 @@ class VK:
         self.transitions += 1
         self._child_exit_effects(proc)
         self.pending = True
+        if self.wakeup_fd != -1 and self.wakeup_fd == self.pipe_w and callable(self.handler):
+            # signal.set_wakeup_fd(): CPython's C-level handler writes the signal number to the fd as the signal arrives
+            try:
+                os.write(self.pipe_w, b"\x11")
+                self.pipe_count += 1
+            except BlockingIOError:
+                pass
         self.ev(why, proc.pid, proc.key, status)
         self._note_state()
 
@@ -243,8 +251,8 @@ class VK:
         self._note_state()
 
     # ------------------------------------------------------------------ scheduling points
-    def _pre(self, kind, blocked_if_empty=False):
-        """Environment phase before a kernel call executes."""
+    def _pre(self, kind):
+        """Environment phase before a kernel call executes (the call itself does not block)."""
         if self.fatal is not None:
             raise self.fatal
         self.npoints += 1
@@ -252,29 +260,16 @@ class VK:
             self._fail(Horizon("more than %d scheduling points" % self.horizon))
         self._note_state()
         while True:
-            can_go = not (blocked_if_empty and self.pipe_count == 0)
             opts, costs = [], []
             runners = sorted(self.running(), key=lambda p: p.pid)
-            if not can_go and not self.pending and self.abort_on is not None and any(p.key == self.abort_on for p in runners):
-                # SIGINT arrives while Conductor is blocked waiting for this task: the Python-level handler raises
-                # ConductorAbort out of the interrupted read()
-                self.abort_on = None
-                self.ev("sigint", kind)
-                from conductor.errors import ConductorAbort
-                raise ConductorAbort()
             if self.pending:
                 opts.append(("deliver",))
                 costs.append(0)
-            if can_go:
-                opts.append(("go",))
-                costs.append(0)
-            free_exit = (not can_go) and (not self.pending)
+            opts.append(("go",))
+            costs.append(0)
             for p in runners:
                 opts.append(("exit", p.key))
-                costs.append(0 if free_exit else 1)
-            if not opts:
-                self.ev("deadlock", kind)
-                self._fail(Deadlock("blocked in %s: pipe empty, nothing pending, no running child" % kind))
+                costs.append(1)
             c = self.chooser.choose(opts, costs, (kind, self.in_handler)) if len(opts) > 1 else 0
             act = opts[c]
             if act[0] == "go":
@@ -284,6 +279,49 @@ class VK:
             else:
                 proc = [p for p in runners if p.key == act[1]][0]
                 self._do_exit(proc)
+
+    def _blocked(self, kind, lost):
+        """Inside a blocking read() of the (empty) self-pipe.  `lost`: a SIGCHLD was already taken by CPython's C-level
+        handler *before* the system call was entered (after the last eval-breaker check): the Python-level handler is
+        pending, but nothing will interrupt this read() for it.  Only a new signal (EINTR) or a byte in the pipe ends the
+        wait."""
+        first = True
+        while self.pipe_count == 0:
+            if self.fatal is not None:
+                raise self.fatal
+            self.npoints += 1
+            if self.npoints > self.horizon:
+                self._fail(Horizon("more than %d scheduling points" % self.horizon))
+            self._note_state()
+            opts, costs = [], []
+            runners = sorted(self.running(), key=lambda p: p.pid)
+            if self.pending and not lost:
+                opts.append(("deliver",))   # the signal interrupts the call (EINTR), the handler runs, the read is retried
+                costs.append(0)
+            free_exit = first and not (self.pending and not lost)
+            for p in runners:
+                opts.append(("exit", p.key))
+                costs.append(0 if free_exit else 1)
+            if self.abort_on is not None and any(p.key == self.abort_on for p in runners) and not (self.pending and not lost):
+                # SIGINT arrives while Conductor is blocked waiting for this task: the Python-level handler raises
+                # ConductorAbort out of the interrupted read()
+                self.abort_on = None
+                self.ev("sigint", kind)
+                from conductor.errors import ConductorAbort
+                raise ConductorAbort()
+            if not opts:
+                self.ev("deadlock", kind)
+                why = "a SIGCHLD taken just before the call was entered is never handled" if (self.pending and lost) else "nothing pending"
+                self._fail(Deadlock("blocked in %s: pipe empty, no running child, %s" % (kind, why)))
+            c = self.chooser.choose(opts, costs, (kind + ":blocked", self.in_handler)) if len(opts) > 1 else 0
+            act = opts[c]
+            if act[0] == "deliver":
+                self._deliver()
+            else:
+                proc = [p for p in runners if p.key == act[1]][0]
+                self._do_exit(proc)
+                lost = False     # a new signal arrives while blocked: it does interrupt the call
+                first = False
 
     def _post(self):
         """CPython delivers a pending signal right after the C call returns (at the latest)."""
@@ -398,11 +436,16 @@ class VK:
     def read(self, fd, n):
         if fd != self.pipe_r:
             return os.read(fd, n)
-        self._pre("read", blocked_if_empty=True)
+        # phase A: about to enter the system call (an exit here that is not handled before the call is the lost-wakeup window)
+        self._pre("read")
+        lost = self.pending
+        # phase B: inside the (blocking) call
+        if self.pipe_count == 0:
+            self._blocked("read", lost)
         try:
             if self.pipe_count <= 0:
                 self._fail(HarnessError("read proceeds with empty pipe"))
-            data = os.read(fd, n)
+            data = os.read(fd, min(n, self.pipe_count))
             self.pipe_count -= len(data)
             self.ev("piperead", len(data))
             return data
@@ -426,6 +469,14 @@ class VK:
         if fd == self.pipe_w:
             self.pipe_w = None
         return os.close(fd)
+
+    def set_wakeup_fd(self, fd, warn_on_full_buffer=True):
+        if fd != -1 and os.get_blocking(fd):
+            raise ValueError("the fd %d must be in non-blocking mode" % fd)
+        old = self.wakeup_fd
+        self.wakeup_fd = fd
+        self.ev("set_wakeup_fd", "pipe" if fd == self.pipe_w and fd != -1 else fd)
+        return old
 
     def signal(self, signum, handler):
         if signum != _real_signal.SIGCHLD:
@@ -531,7 +582,8 @@ def make_os_facade():
 
 
 def make_signal_facade():
-    return Facade(_real_signal, {"signal": lambda signum, handler: _cur().signal(signum, handler)})
+    return Facade(_real_signal, {"signal": lambda signum, handler: _cur().signal(signum, handler),
+                                 "set_wakeup_fd": lambda fd, **kw: _cur().set_wakeup_fd(fd, **kw)})
 
 
 def make_subprocess_facade():
